@@ -10,7 +10,7 @@ use std::time::Duration;
 
 use detsim::rng::{mix, Rng};
 use metrique_writer::sink::{global_entry_sink, BackgroundQueueBuilder};
-use metrique_writer::{AnyEntrySink, AttachGlobalEntrySink, BoxEntrySink, Entry, GlobalEntrySink};
+use metrique_writer::{AnyEntrySink, AttachGlobalEntrySink, AttachGlobalEntrySinkExt, BoxEntrySink, Entry, GlobalEntrySink};
 use metrique_writer_core::global::{AttachHandle, ThreadLocalTestSinkGuard, TokioRuntimeTestSinkGuard};
 use metrique_writer_core::sink::FlushWait;
 use serde_json::{json, Value};
@@ -107,7 +107,12 @@ fn g_ops(plan: &Value, tno: u64, ops: &[Value], log: &GLog, hist: &History, rts:
                 let dest = ju(op, "dest", 0);
                 let queue = jb(op, "queue", false);
                 let r = catch(|| {
-                    if queue {
+                    if queue && jb(op, "stream", false) {
+                        // the convenience form: attach_to_stream builds the queue itself
+                        let (mut s, _ctl) = RecStream::new(dest as u32, hist.clone(), -1);
+                        s.next_cost_ns = 1_000;
+                        with_global!(g, G => G::attach_to_stream(s))
+                    } else if queue {
                         let (mut s, _ctl) = RecStream::new(dest as u32, hist.clone(), -1);
                         s.next_cost_ns = 1_000;
                         let (sink, handle) = BackgroundQueueBuilder::new()
@@ -132,6 +137,14 @@ fn g_ops(plan: &Value, tno: u64, ops: &[Value], log: &GLog, hist: &History, rts:
             "detach" => {
                 let h = ctl.lock().unwrap().attach[gi].take();
                 match h {
+                    Some(h) if jb(op, "in_panic", false) => {
+                        // the attach handle is a local of a scope that unwinds
+                        let _ = std::panic::catch_unwind(std::panic::AssertUnwindSafe(move || {
+                            let _local = h;
+                            std::panic::resume_unwind(Box::new("harness: unwinding through the scope that owns the attach handle"));
+                        }));
+                        "ok".into()
+                    }
                     Some(h) => match catch(|| drop(h)) {
                         Ok(()) => "ok".into(),
                         Err(p) => format!("panic:{p}"),
@@ -618,9 +631,9 @@ pub fn gen_c17(rng: &mut Rng) -> Value {
                 8 => ops.push(if rng.chance(0.5) { json!({"op":"is_attached","g":g}) } else { json!({"op":"sleep","ns": 1_000 * (1 + rng.below(100_000))}) }),
                 9 | 10 => {
                     next_dest += 1;
-                    ops.push(json!({"op":"attach","g":g,"dest":next_dest,"queue": rng.chance(0.4)}));
+                    ops.push(json!({"op":"attach","g":g,"dest":next_dest,"queue": rng.chance(0.4),"stream": rng.chance(0.5)}));
                 }
-                11 => ops.push(json!({"op":"detach","g":g})),
+                11 => ops.push(json!({"op":"detach","g":g,"in_panic": rng.chance(0.2)})),
                 12 => {
                     next_dest += 1;
                     ops.push(json!({"op":"rt_set","g":g,"rt":rng.below(2),"dest":next_dest}));
@@ -733,7 +746,7 @@ impl Scenario for GlobalDetach {
             let mut ops = vec![];
             if t == 0 {
                 for round in 0..(1 + rng.below(3)) {
-                    ops.push(json!({"op":"attach","g":0,"dest":20 + round,"queue":true}));
+                    ops.push(json!({"op":"attach","g":0,"dest":20 + round,"queue":true,"stream": rng.chance(0.3)}));
                     for _ in 0..rng.below(4) {
                         let id = next_id;
                         next_id += 1;
@@ -742,7 +755,7 @@ impl Scenario for GlobalDetach {
                     if rng.chance(0.5) {
                         ops.push(json!({"op":"sleep","ns": 1_000 * (1 + rng.below(60_000))}));
                     }
-                    ops.push(json!({"op":"detach","g":0}));
+                    ops.push(json!({"op":"detach","g":0,"in_panic": rng.chance(0.2)}));
                 }
             } else {
                 for _ in 0..(2 + rng.below(10)) {
